@@ -1,5 +1,6 @@
 import PicoVerif.Model.Writers
 import PicoVerif.Spec.LuaLex
+import PicoVerif.Lemmas.C19
 /-! C19 — luamin keeps the title and author comments that PICO-8 reads. -/
 namespace Pico.C19
 open Pico.Lex Pico.Wr
@@ -19,11 +20,20 @@ def WFComment (t : Tok) : Prop :=
   ((([45, 45].isPrefixOf t.data ∨ [47, 47].isPrefixOf t.data) ∧ ¬ [45, 45, 91, 91].isPrefixOf t.data ∧ (10 : UInt8) ∉ t.data) ∨
    (∃ body, t.data = [45, 45, 91, 91] ++ body ++ [93, 93] ∧ findSub [93, 93] (body ++ [93, 93]) 0 = some body.length))
 
+theorem leadComments_eq (toks : List Tok) : leadComments toks = C19L.leadC toks := by
+  induction toks with
+  | nil => rfl
+  | cons t ts ih => simp only [leadComments, C19L.leadC, ih]
+
 /-- **C19.header**: the first two comments that precede any code appear verbatim, in order, each on its
 own line, at the very top of the luamin output — for every configuration. -/
 theorem header (cfg : NameCfg) (toks : List Tok) :
     ∃ body, minify cfg toks = (hdr toks).flatMap (fun t => t.code ++ [10]) ++ body := by
-  sorry
+  obtain ⟨st, rest, e, -, -⟩ := C19L.scan cfg toks {} rfl rfl
+  obtain ⟨prev', e'⟩ := C19L.join_header Tok.code (hdr toks) (minChunks cfg st rest) [] (Or.inl rfl)
+  refine ⟨joinChunks prev' (minChunks cfg st rest), ?_⟩
+  rw [← e', minify, e]
+  simp [hdr, leadComments_eq]
 
 /-- **C19.header_lexes_back**: under the lexical grammar a kept comment followed by the line feed luamin adds
 reads back as exactly that comment and then a newline, whatever follows — so the title and byline PICO-8 and
@@ -31,20 +41,26 @@ reads back as exactly that comment and then a newline, whatever follows — so t
 theorem header_lexes_back (t : Tok) (h : WFComment t) (rest : Bytes) :
     Spec.Lex.lexOne (t.code ++ [10] ++ rest) = some ({ kind := .comment, data := t.data }, t.data.length) ∧
     Spec.Lex.lexOne ([10] ++ rest) = some ({ kind := .newline, data := [10] }, 1) := by
-  sorry
+  refine ⟨?_, C19L.lexOne_lf rest⟩
+  obtain ⟨hk, h⟩ := h
+  have hc : t.code = t.data := by simp [Tok.code, hk]
+  rw [hc]
+  rcases h with ⟨hp, hb, hlf⟩ | ⟨body, hd, hf⟩
+  · exact C19L.lexOne_line_comment t.data rest hp hb hlf
+  · rw [hd]; exact C19L.lexOne_block_comment body rest hf
 
 /-- **C19.later_comments_dropped**: once two header comments were kept or code was seen, a comment token
 produces no output and leaves the writer's state unchanged — it can never turn into code. -/
 theorem later_comments_dropped (cfg : NameCfg) (st : MinSt) (t : Tok) (hk : t.kind = .comment)
-    (h : st.seenCode = true ∨ st.hdr ≥ 2) : minStep cfg st t = (st, []) := by
-  sorry
+    (h : st.seenCode = true ∨ st.hdr ≥ 2) : minStep cfg st t = (st, []) :=
+  C19L.minStep_comment_dropped cfg st t hk h
 
 /-- **C19.only_header_comments**: every chunk luamin emits for a comment token is one of the header
 comments: the chunk list is the header chunks followed by chunks of non-comment tokens only. -/
 theorem only_header_comments (cfg : NameCfg) (toks : List Tok) :
     ∃ st rest, minChunks cfg {} toks = (hdr toks).flatMap (fun t => [t.code, [10]]) ++ minChunks cfg st rest ∧
       (st.seenCode = true ∨ st.hdr ≥ 2 ∨ rest = []) ∧ (∃ pre, toks = pre ++ rest) := by
-  sorry
+  simpa [hdr, leadComments_eq] using C19L.scan cfg toks {} rfl rfl
 
 example : hdr [{ kind := .space, data := [32] }, { kind := .comment, data := [45, 45, 97] }, { kind := .newline, data := [10] },
                { kind := .name, data := [120] }, { kind := .comment, data := [45, 45, 98] }]
